@@ -31,6 +31,8 @@ func init() {
 			"Does not decide: RSA/SHA-1/HTTP correctness or the session server's behaviour.",
 		Fixtures: []string{"guardcut", "provenance"},
 		Variants: []Variant{
+			{Name: "online-mode-without-status-200", File: pkgAuth + "/authenticator.go",
+				Old: "onlineMode := resp.StatusCode == http.StatusOK && len(body) != 0", New: "onlineMode := len(body) != 0", Expect: "join-confirmed"},
 			{Name: "token-check-skipped-for-keyed", File: pkgProxy + "/session_client_initial_login.go",
 				Old:    "\t\tif !valid {\n\t\t\tl.log.Info(\"invalid client public signature\")\n\t\t\t_ = l.conn.Close()\n\t\t\treturn\n\t\t}",
 				New:    "\t\tif !valid {\n\t\t\tl.log.Info(\"invalid client public signature\")\n\t\t}",
@@ -74,6 +76,7 @@ func init() {
 }
 
 func runC08(c *Ctx) {
+	checkJoinConfirmedBy200(c)
 	scope := c.P.Funcs(Mod + "/" + pkgProxy)
 	her := c.MustFunc(pkgProxy + ":(*initialLoginSessionHandler).handleEncryptionResponse")
 	hsl := c.MustFunc(pkgProxy + ":(*initialLoginSessionHandler).handleServerLogin")
